@@ -3,7 +3,7 @@
    carries the then-current lock value (PubMono.uploads_current), hence the published history is
    append-only (PubMono.published_history_append_only). With two live instances this is false
    of the code: Properties/C06.v, C06_published_rollback_refuted. *)
-From SL Require Import Base.BytesProofs Ctlog.Model Ctlog.Spec Ctlog.Inv Ctlog.InvStep Ctlog.PubMono.
+From SL Require Import Base.BytesProofs Ctlog.Model Ctlog.Recompute Ctlog.Spec Ctlog.Inv Ctlog.InvStep Ctlog.PubMono.
 From Coq Require Import ZifyN ZifyNat ZifyBool.
 Open Scope N_scope.
 
@@ -468,6 +468,11 @@ Proof.
       eapply SInv_upd with (i := i) (x := x) (x' := X); try eassumption; fields; try reflexivity end.
     right. reflexivity.
   - cbn [fst]. destruct o; (eapply SInv_same; [eassumption|reflexivity..]).
+  - destruct (get_inst (w_insts w) i) as [x|] eqn:G; [|exact HS].
+    destruct (step_recompute_spec sha w i x key lim) as [E|(p & ls & c1 & why & _ & _ & _ & E)]; rewrite E; [exact HS|].
+    match goal with |- SInv (set_i w i ?X) =>
+      eapply SInv_upd with (i := i) (x := x) (x' := X); try eassumption; fields; try reflexivity end.
+    right. reflexivity.
 Qed.
 
 (* whenever at most one instance is live at a time, every upload of the checkpoint object
